@@ -12,7 +12,7 @@ func init() { register("C10", "exploration", runC10) }
 
 // C10: generation / metageneration laws. Online law monitor over every response of generated histories.
 func runC10(run *common.Run) {
-	run.Rule = "case = one generated history (40-70 steps: bursts of 3-6 back-to-back content writes to one name with no delay, patch bursts, read-modify-write patches whose body is a full object resource from an earlier metadata GET (current or stale, also of an earlier incarnation; two times in five the resource of ANOTHER object - a live neighbour, an object of the other bucket, or a name that does not exist - so that name / bucket / id / links in the body differ from the URL and only the addressed object may change) with or without changed user fields, uploads by all three protocols, overwrites, delete and re-creation, compose (also self-appends: a live destination first among its own sources), copy within and across buckets - two copies in three with a request body that is a full destination resource as a read-modify-write client sends it: output-only fields (generation, metageneration, md5Hash, size, timestamps) from an earlier GET of the destination or the source, current or stale, or made up with a generation below / above the destination's current one, user-settable fields exactly the source's -, PATCH bodies with a JSON type error (refused: numbers unchanged), conditioned requests that fail, operations on neighbour names, the 'same bytes again' scenario (about one history in three, at most once per history): an object of 1 MiB or 1 MiB + 17 bytes is uploaded, then written AGAIN with byte-identical content through the other two upload protocols (with and without a declared MD5), copied onto itself, overwritten by a copy of a twin that holds the same bytes, patched (metageneration 2) and uploaded once more, one request per step, and finally deleted - every one of them is a successful content write and must get a generation greater than every earlier one of that name and metageneration 1; 15% of the resumable uploads are sent in >= 2 chunk requests with other requests on the same object between two chunks; steps made of reads only (metadata GET, media GET through every URL form with and without 'Accept-Encoding: gzip', listing; one upload in ten is a gzip stream stored with contentEncoding gzip) after which the whole dump must equal the dump before, requests addressed to never-stored names that are '/'-prefixes of stored names) on one store; the law monitor sees every response: content write => generation new for that name and greater than all earlier ones (also across deletions) and metageneration 1; patch => metageneration +1, generation/size/md5/content unchanged, exactly the supplied fields merged; after every step a whole-store dump (listing items, metadata GET, media GET headers of every name) must report exactly the acknowledged numbers for every object, and upload response headers must agree with the body. Non-trivial = the history had a burst, a successful patch, a re-creation of a deleted name and a failed request; distinct by hash of the step log x store."
+	run.Rule = "case = one generated history (40-70 steps: bursts of 3-6 back-to-back content writes to one name with no delay, patch bursts, read-modify-write patches whose body is a full object resource from an earlier metadata GET (current or stale, also of an earlier incarnation; two times in five the resource of ANOTHER object - a live neighbour, an object of the other bucket, or a name that does not exist - so that name / bucket / id / links in the body differ from the URL and only the addressed object may change) with or without changed user fields, uploads by all three protocols, overwrites, delete and re-creation, compose (also self-appends: a live destination first among its own sources), copy within and across buckets - two copies in three with a request body that is a full destination resource as a read-modify-write client sends it: output-only fields (generation, metageneration, md5Hash, size, timestamps) from an earlier GET of the destination or the source, current or stale, or made up with a generation below / above the destination's current one, user-settable fields exactly the source's -, PATCH bodies with a JSON type error (refused: numbers unchanged), conditioned requests that fail, operations on neighbour names, the 'same bytes again' scenario (about one history in three, at most once per history): an object of 1 MiB or 1 MiB + 17 bytes is uploaded, then written AGAIN with byte-identical content through the other two upload protocols (with and without a declared MD5), copied onto itself, overwritten by a copy of a twin that holds the same bytes, patched (metageneration 2) and uploaded once more, one request per step, and finally deleted - every one of them is a successful content write and must get a generation greater than every earlier one of that name and metageneration 1; 15% of the resumable uploads are sent in >= 2 chunk requests with other requests on the same object between two chunks; steps made of reads only (metadata GET, media GET through every URL form with and without 'Accept-Encoding: gzip', listing; one upload in ten is a gzip stream stored with contentEncoding gzip) after which the whole dump must equal the dump before, requests addressed to never-stored names that are '/'-prefixes of stored names) on one store; the law monitor sees every response: content write => generation new for that name and greater than all earlier ones (also across deletions) and metageneration 1; patch => metageneration +1, generation/size/md5/content unchanged, exactly the supplied fields merged; after every step a whole-store dump (listing items, metadata GET, media GET headers of every name) must report exactly the acknowledged numbers for every object, and upload response headers must agree with the body. Non-trivial = the history had a burst, a successful patch, a re-creation of a deleted name and a failed request; distinct by hash of the step log x store. 'sibling' scenarios: two objects whose names extend one another by a suffix a store might use for files of its own (X and X.tmp, X.meta, X~, X.part, X.bak, X.lock, X.new, X.old, X.swp, X.json, X.emumeta.tmp, .X.swp, #X#; file store: only names it can hold), both given non-default metadata (content type, user metadata, acl / owner ..., mostly a patch on top), then 3-6 requests - overwrite by any protocol, patch, copy onto it (also from the sibling: 'upload to name.tmp, rewrite to name'), compose onto it, delete / re-creation - addressed to one of the two, one per step; the dump after each compares both objects' content, metadata, MD5, generation and metageneration with the model. 'compose_chain' scenarios: composes whose source lists begin with the same head object and continue with different tails, accepted ones (results kept under <head>.cat1..3) alternating with ones that must be refused (failing / unparsable destination condition, failing per-source ifGenerationMatch on a later source, missing later source; addressed to an earlier result, another name, the head or a tail); the dump after every request compares the content of every object."
 	run.Assumptions = []string{
 		"patches change only user-settable fields with non-null values (contentType, cacheControl, contentDisposition, contentLanguage, metadata keys); a body may also carry the output-only fields of a full resource as an earlier GET returned them, which must not change the object (generation, content, size, MD5 unchanged, metageneration exactly +1)",
 		"a copy's request body may be a destination resource: its output-only fields must not reach the new object (new generation greater than every earlier one of that name, metageneration 1, content / size / MD5 the source's); its user-settable fields are sent equal to the source's so that 'metadata of the source' and 'metadata of the request' coincide",
@@ -58,7 +58,7 @@ func c10History(run *common.Run, idx int, store string, strict bool) {
 		run.Violation("hist", idx, what, map[string]any{"store": store, "steps": tailSteps(e.steps, 40), "steps_total": len(e.steps), "law_observations": e.lawViol})
 	}
 	o := &progOpts{Buckets: []string{"vb1", "vb2"}, Names: []string{"g", "g2", "dir/g", "g.txt", "dir/h"}, FileRules: store == "file", CondPct: 30, JunkPct: 3, MD5Pct: 15, NoGzip: true, ExtraPct: 15, CopyBodyPct: 65, GzipObjPct: 10, MidPct: 15,
-		W: map[string]int{"upload": 12, "overwrite": 16, "burst": 14, "patch": 10, "patch_burst": 8, "patch_full": 10, "patch_bad": 4, "delete": 14, "delete_absent": 3, "patch_absent": 2, "compose": 8, "copy": 12, "noop": 3, "reads": 4, "decoy": 3, "big_same": 1}}
+		W: map[string]int{"upload": 12, "overwrite": 16, "burst": 14, "patch": 10, "patch_burst": 8, "patch_full": 10, "patch_bad": 4, "delete": 14, "delete_absent": 3, "patch_absent": 2, "compose": 8, "copy": 12, "noop": 3, "reads": 4, "decoy": 3, "big_same": 1, "sibling": 4, "compose_chain": 2}}
 	for _, b := range o.Buckets {
 		if msg := e.createBucket(b); msg != "" {
 			fail(msg)
